@@ -45,7 +45,6 @@ def rErrStr : ReplayErr → String
   | .badMagic => "err:bad-magic"
   | .unsupportedVersion v => s!"err:version:{v}"
   | .extMagicMismatch => "err:ext-magic"
-  | .lenExceedsFile => "err:len-exceeds-file"
   | .badChecksum => "err:bad-checksum"
   | .decode => "err:decode"
   | .apply e => mErrStr e
